@@ -22,6 +22,9 @@ META = dict(
          "padding bytes present, payload unchanged, encrypted span a multiple of max(8, block size) with the length "
          "field excluded under -etm and GCM, MAC/tag length as negotiated; and the wire bytes are decrypted with "
          "cryptography using the captured key/IV/MAC key and must reproduce the plaintext image with a valid MAC. "
+         "Each Packetizer walks its window three times in a row (ascending, descending, shuffled) so that state kept "
+         "between packets cannot hide; further Packetizers are re-keyed through a walk covering every ordered pair of "
+         "framing families (classic/etm/gcm, block 8/16) with all lengths 1..2*bs+8 after each switch. "
          "Outside the window: boundary lengths up to 2^18 and random lengths. Lengths up to 2^32-1 are not "
          "reachable by execution; the formula is exercised at every residue modulo the block size.",
     note="exhaustive refers to the concrete window 0..4*bs+8 for every suite and framing mode, not to the symbolic "
@@ -54,31 +57,33 @@ def expected(cipher, mac):
     return mode, bs, maclen
 
 
-def check_image(ctx, mode, bs, arg, image, wit):
-    """RFC 4253 section 6 on the plaintext image returned by _build_packet(arg)."""
+def check_image(ctx, tag, bs, arg, image, wit, mode=None):
+    """RFC 4253 section 6 on the plaintext image returned by _build_packet(arg).  `tag` names the framing
+    mode in signatures (and the previous mode when a re-key changed it)."""
+    mode = mode or tag
     ctx.count("build_packet_contract_evaluations")
     if len(image) < 5:
-        ctx.violation("packet image shorter than its header (%s)" % mode, "len(image) < 5", wit)
+        ctx.violation("packet image shorter than its header (%s)" % tag, "len(image) < 5", wit)
         return False
     L, pad = struct.unpack(">IB", image[:5])
     ok = True
     if L != len(image) - 4:
-        ctx.violation("length field inconsistent with packet contents (%s)" % mode,
+        ctx.violation("length field inconsistent with packet contents (%s)" % tag,
                       "packet_length %d but %d bytes follow" % (L, len(image) - 4), wit)
         ok = False
     if not (4 <= pad <= 255):
-        ctx.violation("padding length outside 4..255 (%s)" % mode, "padding_length = %d" % pad, wit)
+        ctx.violation("padding length outside 4..255 (%s)" % tag, "padding_length = %d" % pad, wit)
         ok = False
     if L != 1 + len(arg) + pad:
-        ctx.violation("packet_length != 1 + payload + padding (%s)" % mode,
+        ctx.violation("packet_length != 1 + payload + padding (%s)" % tag,
                       "packet_length %d, payload %d, padding_length %d" % (L, len(arg), pad), wit)
         ok = False
     if image[5:5 + len(arg)] != arg:
-        ctx.violation("payload altered inside the packet image (%s)" % mode, "image[5:5+n] != payload", wit)
+        ctx.violation("payload altered inside the packet image (%s)" % tag, "image[5:5+n] != payload", wit)
         ok = False
     span = len(image) - (4 if mode in ("etm", "gcm") else 0)
     if span % bs != 0:
-        ctx.violation("encrypted span not a multiple of the block size (%s)" % mode,
+        ctx.violation("encrypted span not a multiple of the block size (%s)" % tag,
                       "span %d bytes, block %d" % (span, bs), wit)
         ok = False
     return ok
@@ -104,7 +109,7 @@ def check_wire(ctx, mode, bs, maclen, mac, image, wire, wit):
 def check_stream(ctx, b, cipher, mac, comp, wit):
     """Independent decrypt + re-parse of everything the sender wrote."""
     try:
-        rx = pb.RefRx(b.wire(), b.ref_epochs(captured=True), comp)
+        rx = pb.RefRx(b.wire(), b.ref_epochs(captured=True), comp, b.spec["strict"])
         facts = rx.all()
     except pb.RefError as e:
         ctx.count("streams_reparsed")
@@ -184,6 +189,56 @@ def run_suite(ctx, rng, idx, cipher, mac, comp, lengths, sample=False, window=Fa
     check_stream(ctx, b, cipher, mac, comp, wit0)
 
 
+# every ordered pair of framing families occurs as a transition of this walk
+FAMILY_WALK = ["classic", "etm", "gcm", "classic", "gcm", "etm", "classic", "classic", "etm", "etm", "gcm", "gcm",
+               "classic"]
+
+
+def run_chain(ctx, rng, idx, comp, byfam):
+    """One Packetizer re-keyed through a walk over the framing families (random suite of each family, so block
+    size 8/16 and MAC length change too).  After every key switch each message length 1..2*bs+8 is sent: framing
+    must follow the suite in force, not a previous one."""
+    walk = [f for f in FAMILY_WALK if byfam[f]]
+    role = "client" if idx % 2 == 0 else "server"
+    first = rng.choice(byfam[walk[0]])
+    b = pb.Bench(rng, first[0], first[1], comp, sender_role=role, strict=rng.random() < 0.3)
+    prev = "clear"
+    for step, fam in enumerate(walk):
+        cipher, mac = first if step == 0 else rng.choice(byfam[fam])
+        mode, bs, maclen = expected(cipher, mac)
+        wit0 = dict(kind="re-key chain", step=step, previous=prev, cipher=cipher, mac=mac, comp=comp, role=role)
+        try:
+            b.rekey(cipher=cipher, mac=mac, rev=pb.draw_reverse(rng, rng.randrange(3), byfam))
+        except Exception as e:
+            ctx.violation("sender failed while switching keys: %s" % core.exc_signature(e), repr(e), wit0)
+            return
+        ctx.count("rekey_transition_%s_to_%s" % (prev, mode))
+        lens = list(range(1, 2 * bs + 9))
+        rng.shuffle(lens)
+        for n in lens:
+            ctx.case(("chain", prev, cipher, mac, comp, n),
+                     sample=dict(wit0, length=n, mode=mode) if step == 3 and n == bs and len(ctx.samples) < 4 else None)
+            try:
+                b.send(pb.rand_payload(rng, n, comp != "none"))
+            except Exception as e:
+                ctx.violation("sender failed while writing a packet: %s" % core.exc_signature(e),
+                              "send_message raised %r" % (e,), dict(wit0, length=n))
+                return
+            sent = b.sent[-1]
+            w = dict(wit0, length=n)
+            if sent["build"] is None:
+                ctx.count("build_packet_not_observed")
+                continue
+            arg, image = sent["build"]
+            tag = "%s after re-key from %s" % (mode, prev) if prev not in ("clear", mode) else mode
+            if check_image(ctx, tag, bs, arg, image, w, mode=mode):
+                check_wire(ctx, mode, bs, maclen, mac, image, sent["wire"], w)
+            ctx.count("chain_packets_checked")
+        prev = mode
+    check_stream(ctx, b, None, None, comp, dict(kind="re-key chain", comp=comp, role=role))
+    ctx.count("rekey_chains_completed")
+
+
 def run(ctx):
     rng = ctx.rng
     suites = [(None, None)] + pb.offered_suites()
@@ -200,10 +255,25 @@ def run(ctx):
                 continue
             bs = paramiko.Transport._cipher_info[c]["block-size"] if c else 8
             window = list(range(0, 4 * bs + 9))
-            run_suite(ctx, rng, i, c, m, comp, window, sample=len(ctx.samples) < 3, window=True)
+            # state kept between packets (buffers, counters) must not leak into framing: the same Packetizer
+            # walks the window three times (ascending, descending, shuffled) = 3 x (4*bs+9) packets in a row
+            shuffled = list(window)
+            rng.shuffle(shuffled)
+            run_suite(ctx, rng, i, c, m, comp, window + window[::-1] + shuffled, sample=len(ctx.samples) < 3,
+                      window=True)
             ctx.count("window_suites_enumerated")
     ctx.count("exhaustive_window_complete")
     ctx.require("window_suites_enumerated", 2 * len(suites))
+    # (a') one Packetizer re-keyed across all framing-family transitions
+    byfam = pb.suites_by_family()
+    for j in range(ctx.pick(3, 30)):
+        run_chain(ctx, rng, j + ctx.shard, "zlib" if j % 3 == 2 else "none", byfam)
+    ctx.require("rekey_chains_completed", 12)
+    ctx.require("chain_packets_checked", 4000)
+    for fa in pb.FAMILIES:
+        for fb in pb.FAMILIES:
+            if byfam[fa] and byfam[fb]:
+                ctx.require("rekey_transition_%s_to_%s" % (fa, fb), 12)
     # (b) boundaries up to 2^18 and random lengths
     reps = ctx.pick(1, 30)
     for rep in range(reps):
